@@ -70,3 +70,14 @@ Definition w_inherit : prog :=
                                          m_body := BCode [SReturn (EBin Mul (EAttr false (EVar 5) 2) (EInt 10))] |} ] |};
                     {| c_name := 1; c_base := Some 19%N; c_methods := [w_init] |} ];
      p_funcs := []; p_main := [] |}.
+
+(* class B (19) defines scaled (20): return self.x * 3 + 1; C inherits it; inside the theorems' domain *)
+Definition w_inherit_ok : prog :=
+  {| p_classes := [ {| c_name := 19; c_base := None;
+                       c_methods := [ {| m_name := 20; m_static := false; m_params := [5%N];
+                                         m_body := BCode [SReturn (EBin Add (EBin Mul (EAttr false (EVar 5) 2) (EInt 3)) (EInt 1))] |} ] |};
+                    {| c_name := 1; c_base := Some 19%N; c_methods := [w_init; w_inc] |} ];
+     p_funcs := [];
+     p_main := [SAssign 8 (ENew 1 [EInt 2]); SAug true (EVar 8) 2 Add (EInt 1);
+                SPrint (EMeth (EVar 8) 20 []); SPrint (EMeth (EVar 8) 13 [EInt 1]);
+                SPrint (EMeth (EVar 8) 20 [])] |}.
